@@ -23,21 +23,26 @@ Open Scope Z_scope.
 
 Record case := mkCase {
   c_id : int;
-  c_tbl : list (list int);
+  c_tbl : list int;
   c_ops : list (list int);
   c_events : list (list int);
   c_store : list (list int)
 }.
 
-(* ---------------------------------------------------------------- decoding *)
+(* ---------------------------------------------------------------- decoding
+   Packed transport (see the harness' printer): an Append call / sample is one integer
+   t (28 bits) | value + 2^20 or 0 for the marker (21 bits) | error class (2 bits) | label set
+   index; a label set is one integer with 9 bits (k*32 + v + 1) per label. *)
 Definition zi (i : int) : Z := Uint63.to_Z i.
 Definition voff : Z := 1048576.
 Definition dec_val (z : Z) : val := if z =? 0 then VStale else VNum (z - voff).
+Definition bits (x lo n : Z) : Z := Z.land (Z.shiftr x lo) (Z.ones n).
 
-Fixpoint dec_lset (xs : list Z) : lset :=
-  match xs with
-  | k :: v :: r => (k, v) :: dec_lset r
-  | _ => []
+Fixpoint dec_lset (fuel : nat) (x : Z) : lset :=
+  match fuel with
+  | O => []
+  | S f => if x =? 0 then [] else
+           let e := bits x 0 9 - 1 in (Z.shiftr e 5, Z.land e 31) :: dec_lset f (Z.shiftr x 9)
   end.
 
 Definition tbl_get (tbl : list lset) (i : Z) : option lset :=
@@ -48,14 +53,15 @@ Definition by_list (mask : Z) : list Z := filter (fun i => Z.testbit mask i) [1;
 Fixpoint dec_rules (tbl : list lset) (xs : list Z) : option (list rule) :=
   match xs with
   | [] => Some []
-  | name :: li :: en :: mk :: mv :: byf :: bym :: mul :: add :: gtf :: gtv :: rest =>
-      match tbl_get tbl li, dec_rules tbl rest with
+  | a :: b :: rest =>
+      match tbl_get tbl (bits a 5 12), dec_rules tbl rest with
       | Some ls, Some rs =>
-          Some (mkRule name ls
-                  (mkExpr en (if mk =? 0 then None else Some (mk, mv))
-                          (if byf =? 0 then None else Some (by_list bym))
-                          (mul - voff) (add - voff)
-                          (if gtf =? 0 then None else Some (gtv - voff))) :: rs)
+          let mk := bits a 22 3 in
+          Some (mkRule (bits a 0 5) ls
+                  (mkExpr (bits a 17 5) (if mk =? 0 then None else Some (mk, bits a 25 3))
+                          (if bits a 28 1 =? 0 then None else Some (by_list (bits a 29 7)))
+                          (bits b 0 21 - voff) (bits b 21 21 - voff)
+                          (if bits a 36 1 =? 0 then None else Some (bits b 42 21 - voff))) :: rs)
       | _, _ => None
       end
   | _ => None
@@ -63,11 +69,21 @@ Fixpoint dec_rules (tbl : list lset) (xs : list Z) : option (list rule) :=
 
 Definition dec_op (tbl : list lset) (xs : list Z) : option op :=
   match xs with
-  | [0; li; t; v] => option_map (fun l => OpRaw l t (dec_val v)) (tbl_get tbl li)
-  | 1 :: gid :: off :: lim :: rules => option_map (fun rs => OpLoad gid rs off lim) (dec_rules tbl rules)
-  | [2; gid; ts] => Some (OpEval gid ts)
-  | [3; gid; ts] => Some (OpRemove gid ts)
-  | _ => None
+  | [] => None
+  | h :: rest =>
+      let tag := bits h 0 2 in
+      let gid := bits h 2 2 in
+      if tag =? 0 then
+        match rest with
+        | [p] => option_map (fun l => OpRaw l (bits p 0 28) (dec_val (bits p 28 21))) (tbl_get tbl (Z.shiftr p 51))
+        | _ => None
+        end
+      else if tag =? 1 then
+        option_map (fun rs => OpLoad gid rs (Z.shiftr h 8) (bits h 4 4)) (dec_rules tbl rest)
+      else match rest with
+           | [] => Some (if tag =? 2 then OpEval gid (Z.shiftr h 4) else OpRemove gid (Z.shiftr h 4))
+           | _ => None
+           end
   end.
 
 Fixpoint all_some {A} (l : list (option A)) : option (list A) :=
@@ -85,35 +101,28 @@ Inductive oevent :=
 | ORule (gid ri : Z) (apps : option (list orec))
 | OCleanup (gid : Z) (apps : list orec).
 
-Fixpoint dec_recs (tbl : list lset) (xs : list Z) : option (list orec) :=
-  match xs with
-  | [] => Some []
-  | li :: t :: v :: code :: rest =>
-      match tbl_get tbl li, dec_recs tbl rest with
-      | Some l, Some rs => Some ((l, t, dec_val v, code) :: rs)
-      | _, _ => None
-      end
-  | _ => None
-  end.
+Definition dec_recs (tbl : list lset) (xs : list Z) : option (list orec) :=
+  all_some (map (fun p => option_map (fun l => (l, bits p 0 28, dec_val (bits p 28 21), bits p 49 2))
+                                     (tbl_get tbl (Z.shiftr p 51))) xs).
 
 Definition dec_event (tbl : list lset) (xs : list Z) : option oevent :=
   match xs with
-  | [0; code] => Some (ORaw code)
-  | [1; gid; ri; 0] => Some (ORule gid ri None)
-  | 1 :: gid :: ri :: 1 :: recs => option_map (fun rs => ORule gid ri (Some rs)) (dec_recs tbl recs)
-  | 2 :: gid :: recs => option_map (OCleanup gid) (dec_recs tbl recs)
-  | _ => None
-  end.
-
-Fixpoint dec_samples (xs : list Z) : list sample :=
-  match xs with
-  | t :: v :: r => (t, dec_val v) :: dec_samples r
-  | _ => []
+  | [] => None
+  | h :: rest =>
+      let tag := bits h 0 2 in
+      let gid := bits h 2 2 in
+      if tag =? 0 then match rest with [] => Some (ORaw (Z.shiftr h 2)) | _ => None end
+      else if tag =? 1 then
+        if bits h 4 1 =? 0
+        then match rest with [] => Some (ORule gid (Z.shiftr h 5) None) | _ => None end
+        else option_map (fun rs => ORule gid (Z.shiftr h 5) (Some rs)) (dec_recs tbl rest)
+      else if tag =? 2 then option_map (OCleanup gid) (dec_recs tbl rest)
+      else None
   end.
 
 Definition dec_series (tbl : list lset) (xs : list Z) : option (lset * list sample) :=
   match xs with
-  | li :: r => option_map (fun l => (l, dec_samples r)) (tbl_get tbl li)
+  | li :: r => option_map (fun l => (l, map (fun p => (bits p 0 28, dec_val (bits p 28 21))) r)) (tbl_get tbl li)
   | [] => None
   end.
 
@@ -124,7 +133,7 @@ Record dcase := mkD {
 }.
 
 Definition decode (c : case) : option dcase :=
-  let tbl := map (fun xs => dec_lset (map zi xs)) (c_tbl c) in
+  let tbl := map (fun x => dec_lset 8 (zi x)) (c_tbl c) in
   match all_some (map (fun xs => dec_op tbl (map zi xs)) (c_ops c)),
         all_some (map (fun xs => dec_event tbl (map zi xs)) (c_events c)),
         all_some (map (fun xs => dec_series tbl (map zi xs)) (c_store c)) with
@@ -303,13 +312,16 @@ Fixpoint check_rules (st : store) (gid i : Z) (rules : list (rule * list lset)) 
 (* R4 *)
 Definition check_cleanup (st : store) (gid qt : Z) (req alw : list lset) (evs : list oevent)
   : option (store * list oevent) :=
+  let none := match req with [] => Some (st, evs) | _ => None end in
   match evs with
   | OCleanup g' recs :: rest =>
-      if (g' =? gid) && forallb (fun a => (rec_t a =? qt) && is_stale (rec_v a)) recs
-         && subset req (map rec_l recs) && subset (map rec_l recs) alw
-         && negb (match alw with [] => true | _ => false end)
-      then Some (put_accepted st recs, rest) else None
-  | _ => match req with [] => Some (st, evs) | _ => None end
+      if g' =? gid then
+        if forallb (fun a => (rec_t a =? qt) && is_stale (rec_v a)) recs
+           && subset req (map rec_l recs) && subset (map rec_l recs) alw
+           && negb (match alw with [] => true | _ => false end)
+        then Some (put_accepted st recs, rest) else None
+      else none
+  | _ => none
   end.
 
 Definition rule_key_eqb (a b : rule) : bool := rkey_eqb (rkey_of a) (rkey_of b).
